@@ -328,8 +328,13 @@ def encode(item, choose=None):
     if t == 'ext':
         typ, payload = item['v']
         n = len(payload)
-        if n in (1, 2, 4, 8, 16) and not item.get('want'):
+        want = item.get('want')
+        if n in (1, 2, 4, 8, 16) and not want:
             return bytes([{1: 0xd4, 2: 0xd5, 4: 0xd6, 8: 0xd7, 16: 0xd8}[n], typ & 0xff]) + payload
+        if want == 'ext32' or n > 0xffff:
+            return b'\xc9' + n.to_bytes(4, 'big') + bytes([typ & 0xff]) + payload
+        if want == 'ext16' or n > 0xff:
+            return b'\xc8' + n.to_bytes(2, 'big') + bytes([typ & 0xff]) + payload
         return b'\xc7' + bytes([n, typ & 0xff]) + payload
     raise ValueError(t)
 
